@@ -58,9 +58,11 @@ Definition MIN (t : ty) (a b : sval A) : res (sval A) :=
   lt <- CMP t RLt a b ;; if lt then SET t a else SET t b.
 Definition MAX (t : ty) (a b : sval A) : res (sval A) :=
   gt <- CMP t RGt a b ;; if gt then SET t a else SET t b.
-(* if c.Sign() == -1 { c.NEG(a) } else { c.SET(a) }: the sign of the RECEIVER's old value *)
+(* HEAD 2fc8894: switch a.Sign() { case -1: c.NEG(a); case 0: c.Reset(); case 1: c.SET(a) } — the sign of the ARGUMENT
+   (the receiver's old value cold is not read any more; the parameter stays for the case format) *)
 Definition ABS (t : ty) (cold a : sval A) : res (sval A) :=
-  s <- SIGN t cold ;; if s =? -1 then NEG t a else SET t a.
+  s <- sign C (t, a) ;;            (* a.Sign(): the lower-case method, not SIGN *)
+  if s =? -1 then NEG t a else if s =? 0 then Val (zero_of C (base_of t)) else SET t a.
 (* c.SetFloat64(math.F(a.GetFloat64())) *)
 Definition UN (t : ty) (f : ufn) (a : sval A) : res (sval A) := store C (base_of t) (cfn C f (getf64 C a)).
 Definition POW (t : ty) (a k : sval A) : res (sval A) := store C (base_of t) (cpow C (getf64 C a) (getf64 C k)).
